@@ -26,6 +26,8 @@ def tiny_kernels(start):
     """the C01 kernels that lie inside the tinyfo subset, with monomorphic probes"""
     out = []
     for p in fogen.kernels(start):
+        if p.get("meta", {}).get("family") == "eq":
+            continue              # the end-to-end equality family of C10 (calibrated for fc only)
         txt = json.dumps(p)
         if any(x in txt for x in ('"lam"', '"smatch"', '"letfun"', '"tparams"', '"op": "*"', '"tuple", "es": [{"k": "probe"', '"slice", "es": [{"k": "probe"')):
             continue
